@@ -259,6 +259,18 @@ func init() {
 		})
 		evals += int64(len(subs) + len(subs)/5)
 		c.Run.Set("marker_byte_substitutions", int64(len(subs)))
+		// every ordered pair of a small body set, back to back on one goroutine
+		hist := [][]byte{[]byte("<html><head><script>x</script></head>"), []byte("plain text, no marker at all"), []byte("<scr"), []byte("abc<LINK rel=x>"), {},
+			append(bytes.Repeat([]byte("y"), 300), "<style>"...), bytes.Repeat([]byte("z"), 24), []byte("\xe9\xe9</HEAD>"), append(bytes.Repeat([]byte("w"), 17000), "<link>"...), []byte("<")}
+		for i, a := range hist {
+			for j, b := range hist {
+				for _, g := range []bool{false, true} {
+					c20Check(c, a, g, map[string]any{"kind": "history-first", "index": i})
+					c20Check(c, b, g, map[string]any{"kind": "history-second", "first": i, "second": j, "hex": fmt.Sprintf("%x", clipBytes(b))})
+					evals += 2
+				}
+			}
+		}
 		c20Check(c, nil, false, map[string]any{"kind": "empty"})
 		evals++
 		c.Run.Set("token_sequences", int64(len(seqs)))
